@@ -17,3 +17,23 @@ Theorem C09_crlf_is_subst :
   recon (with_newline rs [13; 10]) mb l = render [13; 10] (recon_pieces rs mb l)
   /\ recon (with_newline rs [10]) mb l = render [10] (recon_pieces rs mb l).
 Proof. exact recon_crlf_is_subst. Qed.
+
+From PasfmtVerif Require Import Model.FmtData Proofs.FmtDataProofs.
+
+(* the original layout is read identically whether the input's line breaks are LF or CRLF *)
+Theorem C09_input_crlf_same_data :
+  forall (ws : bytes) (ign : bool), fmt_of_ws (lf_to_crlf ws) ign = fmt_of_ws ws ign.
+Proof. exact fmt_of_ws_crlf_any. Qed.
+
+(* … in the other direction *)
+Theorem C09_input_crlf_to_lf_same_data :
+  forall (ws : bytes) (ign : bool), fmt_of_ws (crlf_to_lf ws) ign = fmt_of_ws ws ign.
+Proof. exact fmt_of_ws_crlf_to_lf. Qed.
+
+(* whitespace emitted under crlf and under lf reads back as the same data *)
+Theorem C09_emitted_ws_reads_back_newline_independent :
+  forall (tabs : bool) (iw cw : N) (mb : bool) (tok : token) (f : fmt) (ign : bool),
+  f_ignored f = false ->
+  fmt_of_ws (Reconstruct.emit_ws (rs_new true tabs iw cw) mb (tok, f)) ign =
+  fmt_of_ws (Reconstruct.emit_ws (rs_new false tabs iw cw) mb (tok, f)) ign.
+Proof. exact fmt_of_emit_ws_newline_indep. Qed.
